@@ -54,6 +54,19 @@ FAMILY = [
     Residual('sin(2*X2)*t', lambda t, xh, X: np.sin(2 * X[1]) * t, 1, None, True),
 ]
 BYNAME = {r.name: r for r in FAMILY}
+_PER = {}
+
+
+def family_for(L):
+    """FAMILY plus a residual that depends on the PARAMETER x_hat (not only on the embedded point) and is continuous
+    across the closing seam (period L in x_hat): catches code that evaluates the residual outside [0, L] or with an
+    unwrapped parameter on seam patches.  'geometric' here means: admissible on seam patches."""
+    if L not in _PER:
+        k = 2 * np.pi / L
+        _PER[L] = Residual('cos(k*xh)+t*sin(2k*xh)[L={:.6g}]'.format(L),
+                           lambda t, xh, X, k=k: np.where((xh >= 0) & (xh <= L), np.cos(k * xh) + t * np.sin(2 * k * xh), np.nan),
+                           1, None, True)
+    return FAMILY + [_PER[L]]
 
 
 def _block(res, t, seg1, seg2, same):
